@@ -165,7 +165,11 @@ func genPreset(t *verifsim.Tape) string {
 }
 
 func genValue(t *verifsim.Tape) (string, any) {
-	switch t.Draw("valkind", 5) {
+	switch t.Draw("valkind", 6) {
+	case 5:
+		// the library's own error body: it has hand-written XML marshalling
+		fl := t.Draw("errflags", 8)
+		return "error-response", &goahttp.ErrorResponse{Name: "e" + textVal(t), ID: textVal(t), Message: textVal(t), Temporary: fl&1 != 0, Timeout: fl&2 != 0, Fault: fl&4 != 0}
 	case 0, 1:
 		s := &c15Struct{A: textVal(t), N: t.Draw("n", 2000) - 1000}
 		for i := t.Draw("l", 3); i > 0; i-- {
@@ -188,6 +192,9 @@ func decodeTarget(kind string) (any, func() any) {
 	switch kind {
 	case "struct":
 		v := &c15Struct{}
+		return v, func() any { return v }
+	case "error-response":
+		v := &goahttp.ErrorResponse{}
 		return v, func() any { return v }
 	case "string":
 		var s string
